@@ -18,7 +18,7 @@ RULE = ("counters: a base trace (host op, launch+kernel, memcpy pair) with one e
         "extras interleaved x the 4 combinations of only_show_critical_events / show_all_edges x both formats x "
         "zero-weight-launch-edge display flag; writer/reader: write_trace -> read_trace and update_trace_rank for rank "
         "in {0,1,7,12} with and without existing distributedInfo; rank discovery: every set of <=3 files with distinct "
-        "ranks from {0,1,7,12} (at most one file without rank metadata), mixed formats and JSON layouts, every order of "
+        "ranks from {0,1,7,12} (at most one file without rank metadata), mixed formats and JSON layouts (indented, one line, compact, rank metadata after a long indented event list), every order of "
         "the file list. non-trivial = the written file differs from the source (appended events or markers)")
 ASSUMPTIONS = [
     "events on the critical path carry an args dict (Kineto always writes one for operators, runtime calls and activities)",
@@ -92,6 +92,9 @@ def worlds(tier: str, stats: Dict[str, Any]) -> Iterator[Any]:
             for lay in layouts:
                 stats["transitions"] += 1
                 yield dict(mode="discover", ranks=list(rs), layout=lay)
+            if nfiles <= 2 and None not in rs:
+                stats["transitions"] += 1
+                yield dict(mode="discover", ranks=list(rs), layout="indent-trailing-long")
 
 
 def build_counter_world(w) -> List[Dict[str, Any]]:
@@ -295,7 +298,17 @@ def check_discover(w, viol) -> int:
             if r is not None:
                 data["distributedInfo"] = {"backend": "nccl", "rank": r, "world_size": 16}
                 data = {"schemaVersion": 1, "distributedInfo": data["distributedInfo"], **{k: v for k, v in data.items() if k not in ("schemaVersion", "distributedInfo")}}
-            if w["layout"] == "indent":
+            if w["layout"] == "indent-trailing-long":
+                # the rank metadata follows a long, indented event list (what update_trace_rank + write_trace produce
+                # for a file that had no distributedInfo): several thousand lines precede the rank
+                evs = list(data["traceEvents"])
+                evs += [kineto.cpu_op(f"aten::filler{k % 7}", E0 + 100 + 3 * k, 2, ext=1000 + k) for k in range(700)]
+                data = {k: v for k, v in data.items() if k not in ("distributedInfo", "traceEvents")}
+                data["traceEvents"] = evs
+                if r is not None:
+                    data["distributedInfo"] = {"backend": "nccl", "rank": r, "world_size": 16}
+                text = json.dumps(data, indent=2)
+            elif w["layout"] == "indent":
                 text = json.dumps(data, indent=2)
             elif w["layout"] == "oneline":
                 text = json.dumps(data)
